@@ -228,8 +228,10 @@ func runSilence(idx int, sc *silenceCase, seed int64) silenceResult { //nolint:c
 			res.Hard = append(res.Hard, fmt.Sprintf("%s: %d datagrams emitted for %d timer events and %d datagrams received (flight size %d)",
 				sc.Name, res.Emitted, res.Timeouts, res.Injected, burst))
 		}
-		if sc.Flood != "stale" && res.Emitted > burst*(1+res.Timeouts)+2 {
-			// garbage and replays are not handshake input at all: only the timer may cause emissions (alerts aside)
+		if sc.Flood != "stale" && sc.Flood != "replay" && res.Emitted > burst*(1+res.Timeouts)+2 {
+			// garbage is not handshake input at all: only the timer may cause emissions (alerts aside).  Replayed datagrams
+			// are, when they carry a cleartext handshake record (epoch 0 is outside the anti-replay window): they fall
+			// under the per-datagram bound above
 			res.Hard = append(res.Hard, fmt.Sprintf("%s: %d datagrams emitted under a %s flood with %d timer events", sc.Name, res.Emitted, sc.Flood, res.Timeouts))
 		}
 	}
